@@ -379,3 +379,26 @@ Definition t32_mctl_table : list (entry (res (option Z))) := [
   row "xxxxxxxxxxxxxxxx xxxxxxxx 0100 xxxx" (RC enc_DsbT1);
   row "xxxxxxxxxxxxxxxx xxxxxxxx 0101 xxxx" NOTIMPL;                                 (* DMB *)
   row "xxxxxxxxxxxxxxxx xxxxxxxx 0110 xxxx" (RC enc_IsbT1) ].
+
+(* ---------- A6.3.18 Coprocessor, Advanced SIMD and Floating-point instructions: op1(25:20) Rn(19:16) coproc(11:8) op(4);
+   bit 28 selects the second encoding (CDP2, MCR2, ...).  Advanced SIMD / VFP (coproc = 101x, op1 = 11xxxx) are not implemented. ---------- *)
+Definition t32_cop_table : list (entry (res (option Z))) := [
+  row "xxx xx x 00000x xxxx xxxx xxxx xxxx xxxx" (LRet (Err EUndefined));
+  row "xxx xx x 11xxxx xxxx xxxx xxxx xxxx xxxx" NOTIMPL;
+  row "xxx xx x xxxxxx xxxx xxxx 101x xxxx xxxx" NOTIMPL;
+  row "xxx 0x x 000100 xxxx xxxx xxxx xxxx xxxx" (RC enc_McrrMcrr2T1);
+  row "xxx 1x x 000100 xxxx xxxx xxxx xxxx xxxx" (RC enc_McrrMcrr2T2);
+  row "xxx 0x x 000101 xxxx xxxx xxxx xxxx xxxx" (RC enc_MrrcMrrc2T1);
+  row "xxx 1x x 000101 xxxx xxxx xxxx xxxx xxxx" (RC enc_MrrcMrrc2T2);
+  row "xxx 0x x 0xxxx0 xxxx xxxx xxxx xxxx xxxx" (RC enc_StcStc2T1);
+  row "xxx 1x x 0xxxx0 xxxx xxxx xxxx xxxx xxxx" (RC enc_StcStc2T2);
+  row "xxx 0x x 0xxxx1 1111 xxxx xxxx xxxx xxxx" (RC enc_LdcLdc2LiteralT1);
+  row "xxx 1x x 0xxxx1 1111 xxxx xxxx xxxx xxxx" (RC enc_LdcLdc2LiteralT2);
+  row "xxx 0x x 0xxxx1 xxxx xxxx xxxx xxxx xxxx" (RC enc_LdcLdc2ImmediateT1);
+  row "xxx 1x x 0xxxx1 xxxx xxxx xxxx xxxx xxxx" (RC enc_LdcLdc2ImmediateT2);
+  row "xxx 0x x 10xxxx xxxx xxxx xxxx xxx0 xxxx" (RC enc_CdpCdp2T1);
+  row "xxx 1x x 10xxxx xxxx xxxx xxxx xxx0 xxxx" (RC enc_CdpCdp2T2);
+  row "xxx 0x x 10xxx0 xxxx xxxx xxxx xxx1 xxxx" (RC enc_McrMcr2T1);
+  row "xxx 1x x 10xxx0 xxxx xxxx xxxx xxx1 xxxx" (RC enc_McrMcr2T2);
+  row "xxx 0x x 10xxx1 xxxx xxxx xxxx xxx1 xxxx" (RC enc_MrcMrc2T1);
+  row "xxx 1x x 10xxx1 xxxx xxxx xxxx xxx1 xxxx" (RC enc_MrcMrc2T2) ].
